@@ -14,12 +14,10 @@ open GqlModel GqlModel.Coerce
 /-! ## premises on the literal -/
 
 mutual
-/-- every Int token is spelled canonically (`-?digits` without leading zeros and not `-0`): what `strconv.Atoi`
-followed by `%v` gives back. The lexer guarantees everything except `-0` (D-06i). -/
+/-- every Int token has the lexer's shape `-?digits` (what the parser produces; `-0` and any other spelling are fine
+since 54b00d5). A premise only because the model's `Value.int` can hold any text. -/
 def canonInts : Value → Bool
-  | .int raw _ => match intOfChars raw.toList with
-      | some i => intChars i == raw.toList
-      | none => false
+  | .int raw _ => (intOfChars raw.toList).isSome
   | .list vs _ => canonIntsList vs
   | .obj fs _ => canonIntsFields fs
   | _ => true
@@ -282,14 +280,83 @@ theorem coerceFloat_parseFloatLit {cs : List Char} {r : JVal} (hp : parseFloatLi
   rcases parseFloatLit_num hp with ⟨i, rfl⟩ | ⟨m, e, rfl⟩ <;> rfl
 
 theorem canon_int {raw : String} {loc : Loc} (h : canonInts (.int raw loc) = true) :
-    ∃ i, intOfChars raw.toList = some i ∧ intChars i = raw.toList := by
+    ∃ i, intOfChars raw.toList = some i := by
   simp only [canonInts] at h
   cases hi : intOfChars raw.toList with
   | none => simp [hi] at h
-  | some i => exact ⟨i, rfl, by simpa [hi] using h⟩
+  | some i => exact ⟨i, rfl⟩
 
 theorem string_of_intChars {raw : String} {i : Int} (h : intChars i = raw.toList) : intString i = raw := by
   unfold intString; rw [h]; exact String.ofList_toList
+
+theorem natOfDigits_allDigits {cs : List Char} {n : Nat} (h : natOfDigits cs = some n) : allDigits cs = true := by
+  unfold natOfDigits at h
+  split at h
+  · assumption
+  · cases h
+
+theorem unsignedDec_digits {cs : List Char} {n : Nat} (h : natOfDigits cs = some n) : unsignedDec cs = some (n, 0) := by
+  unfold unsignedDec
+  rw [splitDot_digits (digits_of_allDigits (natOfDigits_allDigits h))]
+  simp [h]
+
+theorem intOfChars_cases {cs : List Char} {i : Int} (h : intOfChars cs = some i) :
+    (∃ ds n, cs = '-' :: ds ∧ natOfDigits ds = some n ∧ i = -(n : Int)) ∨
+    (∃ n, natOfDigits cs = some n ∧ i = (n : Int) ∧ ∀ ds, cs ≠ '-' :: ds) := by
+  cases cs with
+  | nil => simp [intOfChars, natOfDigits, allDigits] at h
+  | cons c ds =>
+    by_cases hc : c = '-'
+    · subst hc
+      have h' : intOfChars ('-' :: ds) = (natOfDigits ds).map (fun n => -(n : Int)) := rfl
+      rw [h'] at h
+      cases hn : natOfDigits ds with
+      | none => simp [hn] at h
+      | some n =>
+        simp [hn] at h
+        exact Or.inl ⟨ds, n, rfl, hn, by omega⟩
+    · have hi : intOfChars (c :: ds) = (natOfDigits (c :: ds)).map (fun n => (n : Int)) := by
+        unfold intOfChars
+        split
+        · rename_i heq; simp at heq; exact absurd heq.1 hc
+        · rfl
+      rw [hi] at h
+      cases hn : natOfDigits (c :: ds) with
+      | none => simp [hn] at h
+      | some n =>
+        simp [hn] at h
+        exact Or.inr ⟨n, rfl, by omega, fun ds' e => hc (List.cons.inj e).1⟩
+
+/-- an integer token read as a decimal / as a float literal denotes the same integer -/
+theorem parseDec_of_int {cs : List Char} {i : Int} (h : intOfChars cs = some i) : parseDec cs = some (i, 0) := by
+  rcases intOfChars_cases h with ⟨ds, n, rfl, hn, rfl⟩ | ⟨n, hn, rfl, hne⟩
+  · have h' : parseDec ('-' :: ds) = (unsignedDec ds).map (fun p => (-(p.1 : Int), p.2)) := rfl
+    rw [h', unsignedDec_digits hn]; rfl
+  · rw [parseDec_digits (natOfDigits_allDigits hn), unsignedDec_digits hn]; rfl
+
+theorem noExp_of_int {cs : List Char} {i : Int} (h : intOfChars cs = some i) : ∀ c ∈ cs, noExpChar c = true := by
+  rcases intOfChars_cases h with ⟨ds, n, rfl, hn, rfl⟩ | ⟨n, hn, rfl, hne⟩
+  · intro x hx
+    rcases List.mem_cons.mp hx with rfl | hx
+    · decide
+    · exact noExp_of_digit (digits_of_allDigits (natOfDigits_allDigits hn) x hx)
+  · intro x hx
+    exact noExp_of_digit (digits_of_allDigits (natOfDigits_allDigits hn) x hx)
+
+theorem parseFloatLit_of_int {cs : List Char} {i : Int} (h : intOfChars cs = some i) : parseFloatLit cs = some (.int i) := by
+  unfold parseFloatLit
+  rw [splitExp_noexp (noExp_of_int h)]
+  simp [parseDec_of_int h, normDec]
+
+theorem intOfDec_zero {i : Int} (h : inInt32 i = true) : intOfDec i 0 = .int i := by
+  unfold inInt32 at h
+  simp only [Bool.and_eq_true, decide_eq_true_eq] at h
+  unfold intOfDec
+  have h1 : ¬ (i < minInt32 * 10 ^ 0) := by simp; omega
+  have h2 : ¬ (i > maxInt32 * 10 ^ 0) := by simp; omega
+  first
+    | (simp [h1, h2]; done)
+    | (simp [h1, h2]; exact h)
 
 /-- a literal that `ParseLiteral` accepts: `ParseValue` of its client-variable form gives the same value -/
 theorem scalar_lti (k : ScalarKind) (l : Value) (hv : hasVars l = false) (hcn : canonInts l = true)
@@ -299,22 +366,22 @@ theorem scalar_lti (k : ScalarKind) (l : Value) (hv : hasVars l = false) (hcn : 
   | int =>
     cases l <;> simp_all [parseLiteral, JVal.isNull]
     rename_i raw loc
-    obtain ⟨i, hi, _⟩ := canon_int hcn
+    obtain ⟨i, hi⟩ := canon_int hcn
     simp only [hi] at h ⊢
     by_cases h32 : inInt32 i = true
-    · simp [lti, hi, inInt32_inInt64 h32, parseValue, coerceInt, h32]
+    · simp only [h32, if_true, lti, hi]
+      split
+      · simp [parseValue, coerceInt, h32]
+      · simp [parseValue, coerceInt, parseDec_of_int hi, intOfDec_zero h32]
     · simp [h32, JVal.isNull] at h
   | float =>
     cases l <;> simp_all [parseLiteral, JVal.isNull]
     · rename_i raw loc
-      obtain ⟨i, hi, hc'⟩ := canon_int hcn
-      have hpf : parseFloatLit raw.toList = some (.int i) := by rw [← hc']; exact parseFloatLit_intChars i
-      simp only [lti, hi, hpf, Option.getD, parseValue]
+      obtain ⟨i, hi⟩ := canon_int hcn
+      simp only [lti, hi, parseFloatLit_of_int hi, Option.getD, parseValue]
       split
       · rfl
-      · simp only [coerceFloat]
-        rw [← hc', parseDec_intChars]
-        rfl
+      · simp [coerceFloat, parseDec_of_int hi, normDec]
     · rename_i raw loc
       cases hp : parseFloatLit raw.toList with
       | none => simp [hp, JVal.isNull] at h
@@ -324,11 +391,12 @@ theorem scalar_lti (k : ScalarKind) (l : Value) (hv : hasVars l = false) (hcn : 
   | id =>
     cases l <;> simp_all [parseLiteral, JVal.isNull, lti, parseValue, fmtV]
     rename_i raw loc
-    obtain ⟨i, hi, hc'⟩ := canon_int hcn
-    simp only [hi]
-    split
-    · simp [fmtV, string_of_intChars hc']
-    · simp [fmtV]
+    obtain ⟨i, hi⟩ := canon_int hcn
+    rw [hi]
+    simp only []
+    by_cases hb : inInt64 i = true ∧ intChars i = raw.toList
+    · simp only [hb, and_self, if_true, fmtV]; exact string_of_intChars hb.2
+    · simp only [hb, if_false, fmtV]
   | custom sv pv pl =>
     simp only [parseLiteral, parseValue]
     exact (hc sv pv pl rfl).symm
